@@ -108,7 +108,8 @@ Mk(name, kind, j) ==
 InstMethod(j) == [name |-> NameInstantiate, kind |-> "instantiate", args |-> Sigs[Mod(j, 3) + 1], outcome |-> "ok", resp |-> "", explicit |-> FALSE, ctxkind |-> "",
                   sig |-> "alias", ret |-> ""]
 MigMethod(j)  == [name |-> NameMigrate, kind |-> "migrate", args |-> Sigs[Mod(j + 1, 3) + 1],
-                  outcome |-> IF Mod(j, 2) = 0 THEN "ok" ELSE "err", resp |-> "", explicit |-> FALSE, ctxkind |-> "", sig |-> "alias", ret |-> ""]
+                  \* (only programs with an even index have a migrate handler: every second of them fails)
+                  outcome |-> IF Mod(j, 4) = 0 THEN "err" ELSE "ok", resp |-> "", explicit |-> FALSE, ctxkind |-> "", sig |-> "alias", ret |-> ""]
 
 (* name j of a group goes to slot (j-1) mod 9: part = slot div 3, kind = slot mod 3 *)
 SlotPart(j) == (Mod(j - 1, 9) \div 3) + 1
@@ -434,7 +435,7 @@ B == INSTANCE BuilderOps
 BuilderRuns(q) == IF q.family # "shared" THEN <<>>
                   ELSE SetToSeq(B!Runs("exec", BuilderSets)) \o SetToSeq(B!Runs("inst", BuilderSets))
 (* programs whose generated multitest proxies are exercised by operation histories (C12, MC_Multitest) *)
-MtIds == {"S1", "R1", "R2", "A1", "W1", "K1"}
+MtIds == {"S1", "R1", "R2", "R4", "A1", "W1", "K1"}        \* (R4: its migrate handler fails)
 EmitProg(q) == q @@ [builder |-> BuilderRuns(q), mt |-> q.id \in MtIds] @@ [stim |-> LET ss == SetToSeq(StimSet(q)) IN [i \in 1..Len(ss) |-> ss[i] @@ [vias |-> ViasOf(q, ss[i])]]]
 
 EmitCorpus ==
